@@ -213,6 +213,27 @@ pub fn run(ctx: &RunCtx) -> i32 {
             });
         }
     }
+    // offset family: unknown attributes (and what follows them) behind a filler at every body offset of
+    // menu::offset_points, including values that start beyond message offset 65,535
+    {
+        use crate::refs::codec::ref_encode;
+        let xs = vec![
+            vec![L::Unknown(0x7FFE, Some(b"abc".to_vec())), L::Priority(1)],
+            vec![L::Unknown(0xFFFF, Some(vec![0xC3]))],
+            vec![L::Unknown(0x8003, Some(vec![])), L::Software("s".into())],
+        ];
+        let tails = vec![vec![], vec![L::Sha, L::Fp], vec![L::Mi, L::Unknown(0x7F00, Some(vec![1, 2, 3, 4, 5]))]];
+        let msgs = crate::menu::offset_msgs(thorough, &xs, &tails, [0x72; 12]);
+        msgs.par_chunks(16).for_each(|ch| {
+            let decs = super::c03::decoders(&key);
+            let mut r = Report::new();
+            for lm in ch {
+                relations(&ref_encode(lm, Some(&raw)), "offset-family", &decs, &mut r);
+            }
+            r.sym("offset-family");
+            shared.merge(r);
+        });
+    }
     let mut rep = shared.into_inner();
     rep.outcome("relations-hold");
     rep.outcome(format!("violations:{}", rep.violations.len()));
@@ -222,9 +243,9 @@ pub fn run(ctx: &RunCtx) -> i32 {
         rep,
         Finish {
             level: "exploration",
-            rule: format!("{} seeds (menu messages x tails, RFC 5769 vectors, messages with unknown comprehension-required / -optional attributes of 0..5 value bytes), every single-fault mutant of each (bit flips only for seeds <=80 bytes in the quick tier), and every {{O,MI,SHA,FP}} sequence up to length 5 (6 thorough) with all-correct and all-wrong checksum values; each byte string decoded under all 16 option combinations and without context, results compared pairwise against the five stated relations. Non-trivial = distinct byte string for which at least one not-ignore configuration decoded successfully", n_seeds),
+            rule: format!("{} seeds (menu messages x tails, RFC 5769 vectors, messages with unknown comprehension-required / -optional attributes of 0..5 value bytes), every single-fault mutant of each (bit flips only for seeds <=80 bytes in the quick tier), and every {{O,MI,SHA,FP}} sequence up to length 5 (6 thorough) with all-correct and all-wrong checksum values; plus the offset family (three unknown-attribute bodies x three tails behind a filler at every 4-aligned body offset 0..=4200 (thorough 16,400), around multiples of 4096 (1024) and at every offset 65,300..=65,532); each byte string decoded under all 16 option combinations and without context, results compared pairwise against the five stated relations. Non-trivial = distinct byte string for which at least one not-ignore configuration decoded successfully", n_seeds),
             assumptions: vec!["raw value bytes of unknown attributes are taken from the independent TLV reader".into()],
-            required_symbols: vec!["seeds", "kind-sequences", "unknown-data-compared", "bit-flip", "attribute-move"],
+            required_symbols: vec!["seeds", "kind-sequences", "offset-family", "unknown-data-compared", "bit-flip", "attribute-move"],
             min_outcomes: 2,
             exhaustive: true,
             bounds: json!({"seeds": n_seeds}),
